@@ -74,7 +74,8 @@ def act_str(a):
     if k == "setheld":
         return "tmp[0]=unit(%s)" % ",".join(cc.ids_str(a["ycell"]))
     if k == "combine":
-        return "combine(%s%s)" % ("+" if a.get("order", "first") == "first" else "first:", ",".join(cc.ids_str(a["ocell"])))
+        return "combine(%s%s)" % ("+" if a.get("order", "first") == "first" else "first:",
+                                  ";".join(",".join(cc.ids_str(o["cell"])) for o in a["others"]) or "nothing")
     if k == "astype":
         return "astype(%s)" % a["dtype"]
     return k
@@ -245,8 +246,8 @@ def perform(ctx, act, frm, to):
         other, _ = cc.build(TABS, cls, dim, frm["shape"], ids, scale=0.3)
         ctx.obj = C([ctx.obj, other])
     elif k == "combine":
-        other, _ = cc.build(TABS, cls, dim, act["oshape"], act["ocell"], scale=0.3)
-        ctx.obj = C.combine([ctx.obj, other] if act.get("order", "first") == "first" else [other, ctx.obj])
+        others = [cc.build(TABS, cls, dim, o["shape"], o["cell"], scale=0.3)[0] for o in act["others"]]
+        ctx.obj = C.combine([ctx.obj] + others if act.get("order", "first") == "first" else others + [ctx.obj])
     elif k == "astype":
         ctx.obj = ctx.obj.astype(act["dtype"])
         if act["dtype"] == "float32":
@@ -782,7 +783,7 @@ def run(run, replay=None):
             if quick and tuple(to["shape"]) in ((1, 2), (2, 1)):
                 d2 = min(d2, 1)           # quick: depth 2 from the objects of shape (), (2,), (3,), (2,2)
             jobs.append((cls, 2, act, tk, to, d2, "main"))
-            if act["route"] in ("array", "negarray", "list", "object"):
+            if act["route"] in ("array", "negarray", "list", "iterator", "object"):
                 jobs.append((cls, 3, act, tk, to, max(d2 - 1, 0), "main"))
     for key, succ in LTS.get("deep", {}).items():
         if key[1]:
